@@ -96,6 +96,7 @@ def run_dump(tools, path, kp=b"", vp=b"", mink=None, minv=None):
         cmd += ["-V", str(minv)]
     p = subprocess.run(cmd + [path], stdout=subprocess.PIPE, stderr=subprocess.PIPE, text=True, env=dict(os.environ, LC_ALL="C"), timeout=120)
     ents = []
+    raw = []
     ok = p.returncode == 0
     for ln in p.stdout.splitlines():
         m = _dump_re.match(ln)
@@ -107,8 +108,31 @@ def run_dump(tools, path, kp=b"", vp=b"", mink=None, minv=None):
         if len(k) != int(m.group(1), 16) or len(v) != int(m.group(3), 16):
             ok = False
         ents.append({"k": list(k), "v": vrec(v)})
+        raw.append((k, v))
+    # the default (quoted) mode and the silent mode with the same options: the quoted text must be the manual's rendering of the same
+    # entries (printable characters as they are, the double quote as \", every other byte as \xNN), -s must print nothing
+    quoted = True
+    if ok:
+        cmd2 = [c for c in cmd if c != "-x"]
+        q = subprocess.run(cmd2 + [path], stdout=subprocess.PIPE, stderr=subprocess.PIPE, env=dict(os.environ, LC_ALL="C"), timeout=120)
+        want = b"".join(_quoted(k) + b" " + _quoted(v) + b"\n" for k, v in raw)
+        sl = subprocess.run(cmd2 + ["-s", path], stdout=subprocess.PIPE, stderr=subprocess.PIPE, env=dict(os.environ, LC_ALL="C"), timeout=120)
+        quoted = q.returncode == 0 and q.stdout == want and sl.returncode == 0 and sl.stdout == b""
     return {"e": "Dump", "path": path, "kp": list(kp), "vp": list(vp), "mink": mink or 0, "minv": minv or 0, "ents": ents, "toolok": ok,
-            "rc": p.returncode}
+            "quoted": quoted, "rc": p.returncode}
+
+
+def _quoted(b):
+    out = bytearray(b'"')
+    for c in b:
+        if c == 0x22:
+            out += b'\\"'
+        elif 0x20 <= c <= 0x7e:
+            out.append(c)
+        else:
+            out += b"\\x%02x" % c
+    out += b'"'
+    return bytes(out)
 
 
 _info_map = {"index block offset": "index_block_offset", "index bytes": "bytes_index_block", "data block bytes": "bytes_data_blocks",
